@@ -92,9 +92,9 @@ func checkAuth(c *authCase) string {
 // whether producing E' needed the key (then E' is ineligible by rule instead).
 func mutateAuth(t *rapid.T, w *World, e Entry, signer Actor, txs []Tx, h uint32, minute int, st *Stats) (Entry, string) {
 	m := e.Clone()
-	kind := rapid.IntRange(0, 17).Draw(t, "authKind")
-	if kind >= 16 {
-		kind = 11 // the salt window edge, signed with the key: three shares
+	kind := rapid.IntRange(0, 15).Draw(t, "authKind")
+	if rapid.IntRange(0, 4).Draw(t, "saltEdge") == 0 {
+		kind = 11 // the salt window edge, signed with the key: one case in five (rapid favours the low end of a range, so extra values at its top would hardly ever be drawn)
 	}
 	flip := func(b []byte, label string) (int, bool) {
 		if len(b) == 0 {
